@@ -210,7 +210,7 @@ class DirectCollocation(SamplingMethod):
             for i in range(self.M):
                 for j in range(self.degree):
                     Pidot_j = mtimes(self.Xc[k][i],self.C[:,j])/ dt
-                    p_total = vertcat(p, signals_sampled[count_f_eval])
+                    p_total = self.pack_p_sys(stage, p, signals_sampled[count_f_eval])
                     res = f(x=self.Xc[k][i][:, j+1], u=self.U[k], z=self.Zc[k][i][:,j], p=p_total, t=self.tr[k][i][j])
                     count_f_eval += 1
                     # Collocation constraints
